@@ -311,9 +311,9 @@ def enumerate_cases(tier, seed):
                 qsets += list(itertools.combinations(qnames[:8], 4))
             for n_best in (1, 2, 3):
                 for tc in (1, 0.9, 0.5):
-                    for qf in ("spearman", "pearson") if tier != "quick" else ("spearman",):
+                    for qf in ("spearman", "pearson"):
                         for qs in qsets:
-                            if tier == "quick" and (n_best, tc) in ((3, 0.9), (1, 0.5)):
+                            if tier == "quick" and ((n_best, tc) in ((3, 0.9), (1, 0.5)) or (qf == "pearson" and (tc == 1 or n_best == 1))):
                                 continue
                             cases.append({"selector": selector, "target": target, "qcols": list(qs), "lcols": [], "n_best": n_best, "thresh_corr": tc, "qfilter": qf})
                     for lf in ("tschuprowt", "cramerv") if tier != "quick" else ("tschuprowt",):
